@@ -66,8 +66,11 @@ def run(ids):
             summary[i] = {"error": "patch does not apply"}; continue
         try:
             hits = {}
-            for p in checks:
-                rc, out = sh(f"{PY} -m pdqverif check {p} --tier quick", cwd=VERIF)
+            env = dict(os.environ, PDQVERIF_EVIDENCE_DIR="/tmp/scratch/ev_seed")  # evidence of a seeded tree never lands in /verif/evidence
+            from concurrent.futures import ThreadPoolExecutor
+            with ThreadPoolExecutor(8) as ex:
+                outs = list(ex.map(lambda p: (p, *sh(f"{PY} -m pdqverif check {p} --tier quick", cwd=VERIF, env=env)), checks))
+            for p, rc, out in outs:
                 if rc != 0:
                     lines = [l for l in out.splitlines() if l.startswith(("REFUTED", "ANALYSIS-ERROR"))]
                     hits[p] = {"exit": rc, "first": lines[:2]}
@@ -78,9 +81,6 @@ def run(ids):
         meta["checks_result"] = hits
         json.dump(meta, open(f"{d}/meta.json", "w"), indent=1)
         print(i, meta["property"], "->", {k: v["exit"] for k, v in hits.items()} or "MISSED")
-    # restore clean evidence
-    for p in checks:
-        sh(f"{PY} -m pdqverif check {p} --tier quick", cwd=VERIF)
     return summary
 
 def note(sid, key, text):
